@@ -139,6 +139,9 @@ func (d c14Doc) yaml() string {
 			from := "app.{{cluster}}.sso.test"
 			if d.Type == "rewrite" {
 				from = `^app-(.*)\.{{cluster}}\.sso\.test$`
+				if d.Malform == "bad-rewrite-regexp" {
+					from = `^app-(.*\.{{cluster}}\.sso\.test$` // unbalanced group
+				}
 			}
 			if !(d.Malform == "missing-from") {
 				sb.WriteString("    from: '" + from + "'\n")
@@ -242,7 +245,9 @@ func c14Run(c *fw.Ctx) {
 			return // failing is always acceptable (fail-closed)
 		}
 		c.Res.Count("positive_loaded_documents", 1)
-		if d.Malform != "none" {
+		if d.Malform == "bad-rewrite-regexp" && d.Type != "rewrite" {
+			// only a rewrite route has a regexp in `from`
+		} else if d.Malform != "none" {
 			viol("malformed-accepted/"+d.Malform, "a document with "+d.Malform+" was loaded without error")
 		}
 		if d.Type == "bogus" {
@@ -342,12 +347,12 @@ func c14Run(c *fw.Ctx) {
 	})
 	// sweep 2: fail-closed
 	types := []string{"", "simple", "rewrite", "bogus"}
-	malforms := []string{"none", "bad-regex", "missing-from", "missing-to", "empty-service"}
+	malforms := []string{"none", "bad-regex", "missing-from", "missing-to", "empty-service", "bad-rewrite-regexp"}
 	shapes := [][2]int{{0, 0}, {1, 0}, {8, 0}, {0, 16}, {1 | 8, 16}, {2, 1}}
 	drive(c, "fail-closed", -1, func(x *explore.Exec, owned bool) {
 		d := c14Doc{Blocks: "both"}
 		d.Type = types[x.Choose("type", 4)]
-		d.Malform = malforms[x.Choose("malformation", 5)]
+		d.Malform = malforms[x.Choose("malformation", len(malforms))]
 		d.Env = envs[x.Choose("env-defaults", 3)]
 		sh := shapes[x.Choose("option-shape", len(shapes))]
 		d.D, d.C = sh[0], sh[1]
@@ -364,7 +369,7 @@ func init() {
 		ID:    "C14",
 		Level: "exploration",
 		Rule: "every document of a grammar, loaded through proxy.SetUpstreamConfigs for cluster `prod` with template variables in from/to/options: (merge) blocks {default only, cluster only, both} x options stated by the default block (all 64 subsets of groups, domains, addresses, skip_auth_regex, timeout, header_overrides) x options stated by the cluster block (64 subsets) x extra route {none, bare, stating groups / skip list / timeout} x deployment defaults {none, domain, group}; " +
-			"(fail-closed) route type {omitted, simple, rewrite, unknown} x malformation {none, bad regex, missing from, missing to, empty service} x defaults x option shapes x extra route x a second service configured for another cluster only. " +
+			"(fail-closed) route type {omitted, simple, rewrite, unknown} x malformation {none, bad skip regex, missing from, missing to, empty service, unbalanced rewrite regexp} x defaults x option shapes x extra route x a second service configured for another cluster only. " +
 			"Oracle: an error is always acceptable; otherwise every upstream has its service name, a resolved route, substituted templates, as many compiled skip patterns as listed, at least one allow rule, and every option equals the field-by-field reference merge (cluster block over default block over deployment default; extra route over its parent); " +
 			"distinct_nontrivial = distinct (blocks, subsets, extra, type, defaults, malformation, accepted?) documents",
 		Assumptions:    []string{"one service per document (plus an optional second service configured for another cluster only); option values are distinguishable per block"},
